@@ -55,7 +55,7 @@ class Evaluators(Unit):
             "evaluating a reading expression never modifies the context it is evaluated against"},
         "C16.deepcopy.exact": {"props": ["C16", "C05"], "text":
             "json_util.deepcopy returns an equal value of the same types that shares no container with its argument"},
-        "C11.eval.wrapped": {"props": ["C11"], "text":
+        "C11.eval.wrapped": {"props": ["C11", "C15"], "text":
             "every way evaluation can fail inside an expression (undefined variable, missing key, wrong type, unknown function, empty selection, index out of range, division by zero) surfaces as an ExpressionEvaluationException of the language, never as another exception type"},
     }
     assumptions = ["BOUNDED: value grammar of %d leaves + nested containers; listed reference forms; listed failure kinds; both languages" % len(LEAVES),
@@ -394,3 +394,68 @@ class TransitionNormalForm(Unit):
             ctx.canary()
 
         ctx.eng.explore(thunk)
+
+
+# ================================================================================================
+# workflow input / vars / output rendering
+# ================================================================================================
+FALSY_AND_OTHERS = [False, 0, 0.0, "", [], {}, None, True, 1, "x", [0], {"k": False}]
+
+
+class WorkflowRendering(Unit):
+    bounded = True
+    name = "X.workflow_rendering"
+    functions = ["orquesta.specs.native.v1.models.WorkflowSpec.render_input",
+                 "orquesta.specs.native.v1.models.WorkflowSpec.render_vars",
+                 "orquesta.specs.native.v1.models.WorkflowSpec.render_output"]
+    obligations = {
+        "C16.render_input.exact": {"props": ["C16", "C11"], "text":
+            "a runtime input is passed through exactly (type and value) whether or not the definition declares a default for it - in particular a falsy value (false, 0, '', [], {}, null) is not replaced by the default; a missing input gets the default; rendering errors are returned, not raised"},
+        "C16.render_vars_output.exact": {"props": ["C16", "C11", "C06"], "text":
+            "vars and output entries are rendered in order against a rolling context, values type-exact, errors collected and returned"},
+    }
+    assumptions = ["BOUNDED: %d runtime values x {with default, without default}; yaql/jinja external" % len(FALSY_AND_OTHERS)]
+    trusted = ["CPython", "yaql", "jinja2"]
+
+    def run_split(self, ctx, split):
+        def thunk(e):
+            for v in FALSY_AND_OTHERS:
+                for with_default in (True, False):
+                    d = {"version": 1.0, "input": [{"p": "DEFAULT"}] if with_default else ["p"],
+                         "tasks": {"t1": {"action": "core.noop"}}}
+                    try:
+                        spec = native_specs.WorkflowSpec(d)
+                        rendered, errors = spec.render_input({"p": copy.deepcopy(v)}, {})
+                        ok = not errors and "p" in rendered and typed_eq(rendered["p"], v)
+                        got = (rendered, [str(x) for x in errors])
+                    except Exception as ex:
+                        ok, got = False, repr(ex)
+                    ctx.oblige("C16.render_input.exact", ok, None, {"value": repr(v), "default_declared": with_default, "got": repr(got)[:200]})
+            spec = native_specs.WorkflowSpec({"version": 1.0, "input": [{"p": "DEFAULT"}, "q"], "tasks": {"t1": {"action": "core.noop"}}})
+            rendered, errors = spec.render_input({}, {})
+            ctx.oblige("C16.render_input.exact", rendered.get("p") == "DEFAULT" and not errors, None, {"case": "missing input gets default"})
+            spec = native_specs.WorkflowSpec({"version": 1.0, "input": [{"p": "<% ctx().nope %>"}], "tasks": {"t1": {"action": "core.noop"}}})
+            try:
+                rendered, errors = spec.render_input({}, {})
+                ok = len(errors) == 1 and isinstance(errors[0], exc.ExpressionEvaluationException)
+            except Exception as ex:
+                ok = False
+            ctx.oblige("C16.render_input.exact", ok, None, {"case": "default expression fails: error returned"})
+            for v in FALSY_AND_OTHERS:
+                d = {"version": 1.0, "vars": [{"a": "<% ctx().src %>"}, {"b": "<% ctx().a %>"}],
+                     "output": [{"o1": "<% ctx().src %>"}, {"o2": "<% ctx().o1 %>"}, {"bad": "<% ctx().nope %>"}],
+                     "tasks": {"t1": {"action": "core.noop"}}}
+                try:
+                    spec = native_specs.WorkflowSpec(d)
+                    rv, ev = spec.render_vars({"src": copy.deepcopy(v)})
+                    ro, eo = spec.render_output({"src": copy.deepcopy(v)})
+                    ok = not ev and typed_eq(rv.get("a"), v) and typed_eq(rv.get("b"), v) and typed_eq(ro.get("o1"), v) \
+                        and typed_eq(ro.get("o2"), v) and len(eo) == 1 and "bad" not in ro
+                    got = (rv, ro, [str(x)[:40] for x in eo])
+                except Exception as ex:
+                    ok, got = False, repr(ex)
+                ctx.oblige("C16.render_vars_output.exact", ok, None, {"value": repr(v), "got": repr(got)[:200]})
+            ctx.canary()
+
+        ctx.eng.explore(thunk)
+        ctx.bounded.append({"unit": self.name, "bound": "value list x default/no default"})
